@@ -10,7 +10,8 @@ import z3
 from . import cxx
 from .cxx import *
 from .values import *
-from .values import PermMat, SegView
+from .values import PermMat, SegView, FPUnknown
+from . import fpset
 from .world import strip_ns
 
 class Thrown(Exception):
@@ -210,6 +211,9 @@ class Interp:
                 choice = True
                 self.pending.append(self.sym.taken + [False])
             self.sym.taken.append(choice)
+            if isinstance(c, FPUnknown):
+                if not fpset.refine(c.op, c.a, c.b, choice != c.negated):
+                    raise Infeasible()
             return choice
         if not is_sym(c):
             return truthy(c)
@@ -311,6 +315,8 @@ class Interp:
             return x.map(self.m_sqrt)
         if isinstance(x, Dim):
             return Dim(None if x.d is None else x.d / 2)
+        if isinstance(x, fpset.FP):
+            return fpset.sqrt(x)
         if self.mode == 'float':
             x = float(x)
             if not x >= 0 and x == x:
@@ -363,6 +369,8 @@ class Interp:
         if is_sym(x):
             x = z3real(x)
             return z3.If(x >= 0, x, -x)
+        if isinstance(x, fpset.FP):
+            return fpset.fabs(x)
         return abs(x)
 
     def m_unary_uf(self, name, pyf, x, domain=None):
@@ -576,7 +584,7 @@ class Interp:
             if n.startswith('Eigen::'):
                 return -5
             return -1 if n in self.w.classes else 0
-        if isinstance(v, (float, Fraction, Dim)) or is_sym(v):
+        if isinstance(v, (float, Fraction, Dim, fpset.FP)) or is_sym(v):
             if n == 'double':
                 return 3
             if n in ('int', 'unsigned'):
@@ -1104,10 +1112,32 @@ class Interp:
             walk(fd.body)
             self._loop_ordinals[key] = {nid: i for i, nid in enumerate(order)}
         ordn = self._loop_ordinals[key].get(id(node))
+        qn = fd.qname if isinstance(fd.qname, str) else '::'.join(fd.qname)
+        # content keys: (function, frozenset of identifiers that the loop condition mentions) -- independent of the kind of loop (while / for) and of its position
+        ids = None
+        for (fn_, sel), lc in self.loop_contracts.items():
+            if isinstance(sel, frozenset) and fn_ in (qn, qn.split('::')[-1]):
+                if ids is None:
+                    ids = self._cond_identifiers(node.c)
+                if sel <= ids:
+                    return lc
         if ordn is None:
             return None
-        qn = fd.qname if isinstance(fd.qname, str) else '::'.join(fd.qname)
         return self.loop_contracts.get((qn, ordn)) or self.loop_contracts.get((qn.split('::')[-1], ordn))
+
+    def _cond_identifiers(self, c):
+        out = set()
+        def walk(n):
+            if isinstance(n, Node):
+                if isinstance(n, Id):
+                    out.add(n.name.split('::')[-1])
+                for f in n._fields:
+                    walk(getattr(n, f, None))
+            elif isinstance(n, (list, tuple)):
+                for x in n:
+                    walk(x)
+        walk(c)
+        return frozenset(out)
 
     def _loop_cell(self, fr, name):
         """(getter, setter) of a modified location: local variable or (nested) member of *this"""
@@ -1184,7 +1214,7 @@ class Interp:
         except Exception:
             return a is b
 
-    def exec_while_contract(self, s, lc):
+    def exec_while_contract(self, s, lc, step=None):
         """Hoare rule for while: invariant on entry; then from an ARBITRARY state satisfying the invariant either the condition is false (execution
         continues after the loop) or the body runs once and must re-establish the invariant (that path ends there); break/return leave from the
         arbitrary state.  Sound for any number of iterations; the frame condition (only `modifies` changes) is checked on the body."""
@@ -1215,6 +1245,8 @@ class Interp:
             return                      # break: continue after the loop with the state reached
         except ContinueSig:
             pass
+        if step is not None:
+            self.ev(step)               # for (init; cond; step): the step expression runs after the body and after `continue`
         self._loop_frame_check(fr, lc, before, where)
         for label, cond in lc.invariant(self, fr):
             self.side(cond, 'loop invariant "%s" preserved by the body at %s' % (label, where))
@@ -1278,6 +1310,9 @@ class Interp:
             try:
                 if s.init is not None:
                     self.exec_stmt(s.init)
+                lc = self.loop_contract_for(s) if self.mode == 'sym' and self.loop_contracts and s.c is not None else None
+                if lc is not None:
+                    return self.exec_while_contract(s, lc, step=s.step)
                 n = 0
                 while True:
                     if s.c is not None:
@@ -1729,6 +1764,8 @@ class Interp:
         op = e.op
         if op == '&&':
             l = self.ev(e.l)
+            if isinstance(l, FPUnknown):
+                l = self.decide(l)
             if not is_sym(l):
                 if not truthy(l):
                     return False
@@ -1741,6 +1778,8 @@ class Interp:
             return land(l, r)
         if op == '||':
             l = self.ev(e.l)
+            if isinstance(l, FPUnknown):
+                l = self.decide(l)
             if not is_sym(l):
                 if truthy(l):
                     return True
@@ -2516,6 +2555,8 @@ class Interp:
                 return self.m_complex('log', a[0])
             if isinstance(a[0], Dim):
                 return self.m_unary_uf('ln', None, a[0])
+            if isinstance(a[0], fpset.FP):
+                return fpset.log(a[0])
             if self.mode == 'float':
                 x = float(a[0])
                 return math.log(x) if x > 0 else (-math.inf if x == 0 else math.nan)
@@ -2526,6 +2567,8 @@ class Interp:
             a = A()
             if isinstance(a[0], Dim):
                 return self.m_unary_uf('ln', None, a[0])
+            if isinstance(a[0], fpset.FP):
+                return fpset.log1p(a[0])
             if self.mode == 'float':
                 x = float(a[0])
                 return math.log1p(x) if x > -1 else (-math.inf if x == -1 else math.nan)
@@ -2544,6 +2587,8 @@ class Interp:
             return self.m_unary_uf(nm, getattr(math, nm), a[0], domain=dom)
         if s in ('std::atan2',):
             a = A()
+            if isinstance(a[0], fpset.FP) or isinstance(a[1], fpset.FP):
+                return fpset.atan2(a[0], a[1])
             if self.mode == 'float':
                 return math.atan2(float(a[0]), float(a[1]))
             y, x = z3real(a[0]), z3real(a[1])
@@ -2569,6 +2614,8 @@ class Interp:
             return x - ip
         if s in ('std::fmod',):
             a = A()
+            if isinstance(a[0], fpset.FP) or isinstance(a[1], fpset.FP):
+                return fpset.fmod(a[0], a[1])
             if self.mode == 'float':
                 return math.fmod(float(a[0]), float(a[1]))
             return self.uf('fmod', a[0], a[1])
@@ -2578,6 +2625,8 @@ class Interp:
                 raise Unsupported(s)
             if isinstance(a[0], list):
                 raise Unsupported(s)
+            if isinstance(a[0], fpset.FP) or isinstance(a[1], fpset.FP):
+                return fpset.fmaxmin(a[0], a[1], 'max' in s)
             gt = cmp('<', a[0], a[1]) if 'max' in s else cmp('<', a[1], a[0])
             # std::max(a,b) = (a<b)?b:a ; std::min(a,b) = (b<a)?b:a
             return ite(gt, a[1], a[0])
@@ -2605,6 +2654,10 @@ class Interp:
             nm = s.split('::')[-1]
             if isinstance(a[0], Dim):
                 return nm == 'isfinite'
+            if isinstance(a[0], fpset.FP):
+                if nm == 'isfinite':
+                    return fpset.isfinite(a[0])
+                raise Unsupported(nm + ' of a floating-point set')
             if self.mode == 'float':
                 x = a[0]
                 return {'isfinite': math.isfinite, 'isnan': math.isnan, 'isinf': math.isinf}[nm](float(x))
